@@ -23,6 +23,7 @@ type Cfg struct {
 	EIH       bool   `json:"eih"`       // identity header (iPSK + users) or single PSK
 	PrefixLen int    `json:"prefix"`    // unsafe request stream prefix length
 	Segmented bool   `json:"segmented"` // AllowSegmentedFixedLengthHeader
+	Fallback  bool   `json:"fallback"`  // UnsafeFallbackAddr configured
 }
 
 type keys struct {
@@ -34,6 +35,9 @@ type keys struct {
 	cc     *ss2022.ClientCipherConfig // genuine client
 	target conn.Addr
 }
+
+// fallbackAddr: where a server with a fallback sends what it cannot authenticate (never a request target here).
+var fallbackAddr = conn.AddrFromIPAndPort(netip.AddrFrom4([4]byte{198, 51, 100, 7}), 80)
 
 func newKeys(c Cfg) (*keys, error) {
 	r := common.NewRng(c.KeySeed ^ 0x5eed5eed)
@@ -59,6 +63,9 @@ func (k *keys) newServer() (*ss2022.StreamServer, error) {
 	sc := ss2022.StreamServerConfig{
 		AllowSegmentedFixedLengthHeader: k.cfg.Segmented,
 		UnsafeRequestStreamPrefix:       k.ursp,
+	}
+	if k.cfg.Fallback {
+		sc.UnsafeFallbackAddr = fallbackAddr
 	}
 	if !k.cfg.EIH {
 		ucc, err := ss2022.NewUserCipherConfig(k.psk, false)
